@@ -212,7 +212,7 @@ def _replay_route_vs_manual(shape):
     return rb
 
 
-def _replay_minimum_receive(shape, jops):
+def _replay_minimum_receive(shape, jops, exact=False):
     """native: run the route once to learn what it delivers (D), then from the same state with minimum_receive = D + 1: it must be refused"""
     from .c02 import _mints
     from ..replayer import run_scenario
@@ -233,6 +233,12 @@ def _replay_minimum_receive(shape, jops):
         if not r0 or 'ok' not in r0[-2]:
             continue
         D = int(r0[-1]['ok'])
+        if exact:
+            sc, r1 = run(D)
+            if r1 and 'ok' not in r1[-2]:
+                why = 'route %s delivers %d %s without a minimum but is refused with minimum_receive = %d' % (shape, D, final, D)
+                return sc, (lambda o, w=why: (True, w))
+            continue
         sc, r1 = run(D + 1)
         if r1 and 'ok' in r1[-2]:
             why = 'route %s delivers %d %s but executes with minimum_receive = %d' % (shape, int(r1[-1]['ok']), final, D + 1)
@@ -330,6 +336,171 @@ def _ob_route(shape):
             I.check('fee_collector_gets_each_hops_protocol_fee', smt.Eq(b.get('fee_collector', d) - pre.get('fee_collector', d), pf))
             I.check('each_hops_burn_fee_leaves_supply', smt.Eq(pre.supply[d] - b.supply[d], bf))
     return s
+
+
+# ---------------------------------------------------------------- stableswap pools with different decimals: fees are shares of the gross output (Newton solver abstracted)
+
+def _abs_y(I, args):
+    """calculate_stableswap_y as an arbitrary function (fresh 256-bit result or Err per call): the obligation is about the fee and reserve
+    accounting around the solver's result"""
+    n = I.world.meta.setdefault('y_calls', 0)
+    I.world.meta['y_calls'] = n + 1
+    ok = I.symbool('y%d_ok' % n)
+    if I.ctx.wit is not None:
+        I.ctx.wit_define(ok, True)
+    v = I.sym('new_ask_pool%d' % n, bits=256)
+    if not I.fork(ok):
+        return Err(En('pool_manager::error::ContractError', 'SwapOverflowError'))
+    return Ok(v)
+
+
+def _replay_stable_fees(do, da):
+    """native run on a real stableswap pool with these decimals and 0.1% protocol / swap / burn fees: the amounts the Swap reports must satisfy
+    fee = floor(share x gross output), gross = net return + all fees; the transfers must match the reported amounts"""
+    def rb(label, m):
+        from .c02 import _mints
+        from ..replayer import run_scenario
+        share = 10 ** 15
+        x, y, offer = 10 ** 6 * 10 ** do, 10 ** 6 * 10 ** da, 10 ** 3 * 10 ** do
+        pool = pool_json('p1', ['uA', 'uB'], [do, da], [x, y], {'stable_swap': {'amp': 100}}, (share, share, share, []))
+        steps = [{'op': 'set_pool', 'pool': pool}]
+        steps += _mints([('pool_manager', [('uA', x), ('uB', y)]), ('trader', [('uA', offer)])])
+        steps.append({'op': 'execute', 'contract': 'pool_manager', 'sender': 'trader', 'funds': [coin_j('uA', offer)],
+                      'msg': {'swap': {'ask_asset_denom': 'uB', 'belief_price': None, 'max_slippage': '0.5', 'receiver': None, 'pool_identifier': 'p1'}}})
+        steps.append({'op': 'balance', 'addr': 'trader', 'denom': 'uB'})
+        steps.append({'op': 'balance', 'addr': 'fee_collector', 'denom': 'uB'})
+        sc = {'setup': {}, 'steps': steps}
+        res = run_scenario(sc).get('results')
+        if not res or 'ok' not in res[-3]:
+            return None
+        at = {a[0]: a[1] for ev in res[-3]['ok'].get('events', []) if ev.get('type') == 'wasm' for a in ev.get('attrs', [])}
+        try:
+            ret, sf, pf, bf, ef = (int(at[k]) for k in ('return_amount', 'swap_fee_amount', 'protocol_fee_amount', 'burn_fee_amount', 'extra_fees_amount'))
+        except (KeyError, ValueError):
+            return None
+        gross = ret + sf + pf + bf + ef
+        want = gross * share // 10 ** 18
+        bad = [(n, v) for n, v in (('swap', sf), ('protocol', pf), ('burn', bf)) if v != want]
+        if bad or int(res[-1]['ok']) != pf or int(res[-2]['ok']) != ret:
+            why = ('stableswap %d/%d decimals, fees 0.1%% each, offer %d: gross output %d, so each fee is %d, but reported %s; receiver got %s, fee collector %s'
+                   % (do, da, offer, gross, want, {n: v for n, v in (('swap', sf), ('protocol', pf), ('burn', bf))}, res[-2]['ok'], res[-1]['ok']))
+            return sc, (lambda out, w=why: (True, w))
+        return None
+    return rb
+
+
+def _ob_stable_fees(do, da):
+    def s(I):
+        I.set_hint({'reserve_x': 10 ** 6 * 10 ** do, 'reserve_y': 10 ** 6 * 10 ** da, 'offer': 10 ** 3 * 10 ** do, 'new_ask_pool0': (10 ** 6 - 999) * 10 ** 18,
+                    'max_slippage_atomics': 5 * 10 ** 17, 'pm_balance_A': 10 ** 7 * 10 ** do, 'pm_balance_B': 10 ** 7 * 10 ** da,
+                    'supply_A': 10 ** 8 * 10 ** do, 'supply_B': 10 ** 8 * 10 ** da, 'protocol_fee': 10 ** 15, 'swap_fee': 10 ** 15, 'burn_fee': 10 ** 15, 'extra_fee0': 10 ** 15})
+        x = I.sym('reserve_x', lo=1, hi=U128)
+        y = I.sym('reserve_y', lo=1, hi=U128)
+        fees, (p, sfee, bu, ex) = sym_fees(I, 1)
+        pool = pool_info('p1', ['uA', 'uB'], [do, da], [x, y], stable(100), fees)
+        b = setup_world(I, pool)
+        o = I.sym('offer', lo=1, hi=U128)
+        b.set('trader', 'uA', o)
+        b.supply['uA'] = simp(b.supply['uA'] + o)
+        I.assume(b.supply['uA'] <= U128)
+        tol = I.sym('max_slippage_atomics', hi=U128)
+        ch = Chain(I, CONTRACTS)
+        pre = b.snapshot()
+        st, resp = ch.execute('trader', PM, swap_msg('uB', 'p1', max_slippage=Some(tol)), [coin_v('uA', o)])
+        if st != 'ok':
+            I.outcome('rejected')
+            return
+        I.cover('ok')
+        got = simp(b.get('trader', 'uB') - pre.get('trader', 'uB'))
+        to_fc = simp(b.get('fee_collector', 'uB') - pre.get('fee_collector', 'uB'))
+        burned = simp(pre.supply['uB'] - b.supply['uB'])
+        ret, sf, pf, bf, ef = (response_attr(resp, k) for k in ('return_amount', 'swap_fee_amount', 'protocol_fee_amount', 'burn_fee_amount', 'extra_fees_amount'))
+        I.check('swap_reports_its_amounts', all(v is not None for v in (ret, sf, pf, bf, ef)))
+        if any(v is None for v in (ret, sf, pf, bf, ef)):
+            return
+        I.check('receiver_gets_the_reported_net_return', smt.Eq(got, ret))
+        I.check('fee_collector_gets_the_reported_protocol_fee', smt.Eq(to_fc, pf))
+        I.check('burn_fee_leaves_supply', smt.Eq(burned, bf))
+        gross = simp(ret + sf + pf + bf + ef)
+        I.check('protocol_fee_is_share_of_gross_output', smt.Eq(pf, I.ctx.fdiv(simp(gross * p), E18)))
+        I.check('swap_fee_is_share_of_gross_output', smt.Eq(sf, I.ctx.fdiv(simp(gross * sfee), E18)))
+        I.check('burn_fee_is_share_of_gross_output', smt.Eq(bf, I.ctx.fdiv(simp(gross * bu), E18)))
+        I.check('extra_fee_is_share_of_gross_output', smt.Eq(ef, I.ctx.fdiv(simp(gross * ex[0]), E18)))
+        x2, y2 = reserves_of(get_pool(I, 'p1'))
+        I.check('offer_added_in_full', smt.Eq(x2, x + o))
+        I.check('ask_reserve_minus_outgoing', smt.Eq(y - y2, got + to_fc + burned))
+    return s
+
+
+for _do, _da in ((6, 6), (8, 6), (6, 8)):
+    obligation('C04', 'S3.stableswap_fees_decimals_%d_%d' % (_do, _da),
+               entries=['execute', 'swap::commands::swap', 'perform_swap', 'compute_swap', 'compute_fees', 'Decimal256Helper'], kind='S',
+               statement='an executed stableswap swap on a pool with %d / %d decimals: every fee is the configured share of the gross output rounded down, the receiver gets the gross '
+                         'output minus all fees, the protocol fee reaches the fee collector, the burn fee leaves supply, the offer is added in full and the ask reserve decreases by exactly '
+                         'what left the contract -- whatever new pool balance the Newton solver returns' % (_do, _da),
+               bounds='reserves, offer [1,2^128), real is_valid fees with one extra fee, tolerance any Decimal; calculate_stableswap_y replaced by an arbitrary 256-bit result or error',
+               covers=['ok'], abstractions=['calculate_stableswap_y replaced by an arbitrary function (fresh 256-bit result or Err per call)'],
+               opts={'abstract': {'pool-manager::calculate_stableswap_y': _abs_y}}, replay=_replay_stable_fees(_do, _da))(_ob_stable_fees(_do, _da))
+
+
+def _ob_minimum_boundary(shape):
+    hops = ROUTES[shape]
+
+    def s(I):
+        I.set_hint(dict(HINT, reserve_z=10 ** 12, reserve_w=10 ** 12))
+        x = I.sym('reserve_x', lo=1, hi=U128)
+        y = I.sym('reserve_y', lo=1, hi=U128)
+        z = I.sym('reserve_z', lo=1, hi=U128)
+        w = I.sym('reserve_w', lo=1, hi=U128)
+        fees1, _ = sym_fees(I, 0)
+        fees2, _ = sym_fees(I, 0, prefix='p2_')
+        pm_config(I)
+        put_pool(I, pool_info('p1', ['uA', 'uB'], [6, 6], [x, y], xyk(), fees1))
+        put_pool(I, pool_info('p2', ['uB', 'uC'], [6, 6], [z, w], xyk(), fees2))
+        b = bank_of(I)
+        b.set(PM, 'uA', x); b.set(PM, 'uB', simp(y + z)); b.set(PM, 'uC', w)
+        for d in ('uA', 'uB', 'uC'):
+            b.supply[d] = simp(b.get(PM, d) * 2 + (1 << 130))
+        o = I.sym('offer', lo=1, hi=U128)
+        b.set('trader', 'uA', o)
+        I.assume(I.addr_valid('alice'))
+        ops = [swap_op(a, bb, pid) for a, bb, pid in hops]
+        final = hops[-1][1]
+        ch = Chain(I, CONTRACTS)
+        start = ch.snapshot()
+        pre = bank_of(I).get('alice', final)
+        st0, _ = ch.execute('trader', PM, route_msg(ops, max_slippage=Some(5 * 10 ** 17), receiver=Some('alice'), minimum=NONE()), [coin_v('uA', o)])
+        if st0 != 'ok':
+            I.outcome('route_rejected_without_minimum')
+            return
+        D = simp(bank_of(I).get('alice', final) - pre)
+        ch.restore(start)
+        st1, _ = ch.execute('trader', PM, route_msg(ops, max_slippage=Some(5 * 10 ** 17), receiver=Some('alice'), minimum=Some(D)), [coin_v('uA', o)])
+        D1 = simp(bank_of(I).get('alice', final) - pre)
+        ch.restore(start)
+        if I.fork(D + 1 > U128):
+            return
+        st2, _ = ch.execute('trader', PM, route_msg(ops, max_slippage=Some(5 * 10 ** 17), receiver=Some('alice'), minimum=Some(simp(D + 1))), [coin_v('uA', o)])
+        I.cover('ok')
+        I.check('exactly_the_minimum_is_enough', st1 == 'ok')
+        if st1 == 'ok':
+            I.check('same_amount_delivered', smt.Eq(D1, D))
+        I.check('one_unit_short_is_refused', st2 != 'ok')
+    return s
+
+
+def _replay_boundary(shape):
+    def rb(label, m):
+        jops = [{'mantra_swap': {'token_in_denom': a, 'token_out_denom': bb, 'pool_identifier': pid}} for a, bb, pid in ROUTES[shape]]
+        return _replay_minimum_receive(shape, jops, exact=(label != 'one_unit_short_is_refused'))
+    return rb
+
+
+for _shape in ('AB_BC', 'AB_BA'):
+    obligation('C04', 'R2.minimum_receive_boundary_%s' % _shape, entries=['execute', 'execute_swap_operations', 'perform_swap'], kind='R',
+               statement='from the same state: the route delivers D without a minimum; with minimum_receive = D it executes and delivers D; with D + 1 it is refused as a whole',
+               bounds='as R1 (two constant-product pools, symbolic reserves / fees / offer), tolerance 50%; three runs from one snapshot', covers=['ok'],
+               abstractions=[ABSTRACT_PRICING_NOTE], opts={'abstract': ABSTRACT_PRICING}, replay=_replay_boundary(_shape))(_ob_minimum_boundary(_shape))
 
 
 for _shape in ROUTES:
